@@ -1,23 +1,25 @@
 #!/bin/bash
 # tools/coverage.sh Cxx [file-regex]  —  which lines of the real code does the quick tier of a check execute?
-# Builds the property's harness (and the receptor binary) with -cover from /repo, runs the quick tier with
-# GOCOVERDIR set and prints per-function coverage of pkg/ (filtered by the regex) plus the uncovered blocks
-# of functions that are partly covered.  A diagnostic for generator gaps, not part of any check.
+# Copies /repo's working tree to a scratch directory, puts the property's harness inside that module (so
+# that `go build -cover` instruments receptor's packages), runs the quick tier with GOCOVERDIR set and prints
+# per-function coverage (filtered by the regex).  The profile is kept in .build/cover-Cxx.txt for
+# `go tool cover -html`.  A diagnostic for generator gaps, not part of any check.
 set -e
 P=$1; FILT=${2:-pkg/}
 p=$(echo $P | tr A-Z a-z)
 export GOFLAGS=-mod=mod GOPROXY=off GOSUMDB=off GOTOOLCHAIN=local
 S=$(mktemp -d /tmp/vcover-$P-XXXX); trap "rm -rf $S" EXIT
-mkdir -p $S/h/cmd $S/cov $S/out
-cp -r /verif/harness/lib $S/h/lib; cp -r /verif/harness/cmd/$p $S/h/cmd/$p
-sed '0,/^module .*/s//module verifharness/' /repo/go.mod > $S/h/go.mod
-printf '\nrequire github.com/ansible/receptor v0.0.0\nreplace github.com/ansible/receptor => /repo\n' >> $S/h/go.mod
-cp /repo/go.sum $S/h/go.sum
-cd $S/h
-go build -tags verif -cover -coverpkg=github.com/ansible/receptor/pkg/... -o $S/vh ./cmd/$p
-go build -tags verif -cover -coverpkg=github.com/ansible/receptor/pkg/... -o $S/receptor github.com/ansible/receptor/cmd/receptor-cl
+mkdir -p $S/repo $S/cov $S/out
+rsync -a --exclude .git /repo/ $S/repo/
+mkdir -p $S/repo/verifh/cmd
+cp -r /verif/harness/lib $S/repo/verifh/lib; cp -r /verif/harness/cmd/$p $S/repo/verifh/cmd/$p
+find $S/repo/verifh -name '*.go' | xargs sed -i 's#"verifharness/#"github.com/ansible/receptor/verifh/#'
+cd $S/repo
+go build -tags verif -cover -o $S/vh ./verifh/cmd/$p
+go build -tags verif -cover -o $S/receptor ./cmd/receptor-cl
 cd $S/out
-GOCOVERDIR=$S/cov VERIF_BIN=$S/receptor VERIF_ROOT=/verif VERIF_REPO=/repo timeout 900 $S/vh -seed 1 -tier quick -out $S/out > $S/run.log 2>&1 || true; tail -3 $S/run.log; ls $S/cov | head -3
+GOCOVERDIR=$S/cov VERIF_BIN=$S/receptor VERIF_ROOT=/verif VERIF_REPO=/repo timeout 900 $S/vh -seed 1 -tier quick -out $S/out > $S/run.log 2>&1 || true
+cd $S/repo
 go tool covdata textfmt -i=$S/cov -o=$S/cover.txt
 mkdir -p /verif/.build; cp $S/cover.txt /verif/.build/cover-$P.txt
-cd /repo && go tool cover -func=$S/cover.txt | grep -E "$FILT" | awk '{print $NF, $1, $2}' | sort -n
+go tool cover -func=$S/cover.txt | grep -E "$FILT" | awk '{print $NF, $1, $2}' | sort -n
